@@ -1,1 +1,2 @@
 import Proofs.Map
+import Proofs.Toks
